@@ -366,6 +366,15 @@ Proof.
   rewrite (secret_lookup_agree B w1 w2 is_tls defns c (conj Hs (conj Hsv (conj Hbk Hf))) Hd HB). reflexivity.
 Qed.
 
+Lemma get_service_agree B d w1 w2 defns ref :
+  agree_outside B w1 w2 -> d_svc d = false -> defns <> "" -> defns <> B ->
+  get_service d w1 defns ref = get_service d w2 defns ref.
+Proof.
+  intros (_ & Hsv & _) Hb Hd HB. unfold get_service. rewrite Hb.
+  destruct (build_resource_name defns ref false) as [[ns n]|e] eqn:E; [|reflexivity].
+  pose proof (brn_deny_local _ _ _ _ Hd E) as ->. rewrite (Hsv defns n HB). reflexivity.
+Qed.
+
 Lemma get_passwd_agree B d w1 w2 defns ref :
   agree_outside B w1 w2 -> d_passwd d = false -> defns <> "" -> defns <> B ->
   get_passwd d w1 defns ref = get_passwd d w2 defns ref.
@@ -639,6 +648,8 @@ Proof.
     apply (get_service_gw_agree B); auto.
   - (* Gateway API certificateRef *)
     apply (get_tls_agree B); auto.
+  - (* the Service lookup of a backend *)
+    apply (get_service_agree B); auto.
 Qed.
 
 (* all the sites, whatever the other namespaces (B included) reference before or after *)
